@@ -297,6 +297,18 @@ def _make_input(cfg, log):
                     time.sleep(rng.random() * 3e-4)
                 yield x
         return slow()
+    if kind == "stallgen":
+        # a producer that pauses for seconds while every worker is idle (slowly enumerated
+        # package iterables do this): an idle worker must keep waiting, not give up
+        stall = cfg.get("stall_s", 2.2)
+        mid = len(items) // 2
+
+        def stalling():
+            for i, x in enumerate(items):
+                if i in (0, mid):
+                    time.sleep(stall)
+                yield x
+        return stalling()
     raise ValueError(kind)
 
 
@@ -616,9 +628,15 @@ def run(ctx):
     try:
         n = ctx.budget(450, 4000)
         cap = time.monotonic() + ctx.budget(38, 600)      # wall cap: threads at a 1 us switch interval crawl on a loaded box
+        nstall = ctx.budget(1, 5)
         for i in range(n):
             x = i % 10
-            if x == 8:
+            if i < nstall:
+                cfg = gen_cfg(rng, ctx.quick)
+                cfg.update(kind="stallgen", items=list(range(rng.randrange(6, 14))), stall_s=rng.choice([1.6, 2.2, 3.1]),
+                           threads=rng.choice([1, 2, 4, 7]), kwds={}, pt_kwds=False, inject_p=0.0, sleep_p=0.0)
+                ctx.count("runs_with_stalling_producer")
+            elif x == 8:
                 cfg = gen_cfg_regen(rng, ctx.quick)
             elif x == 9:
                 cfg = gen_cfg_trigger(rng, ctx.quick)
